@@ -44,7 +44,11 @@ def tasks(tier):
             # extrapolate / topoints identify the q-th quadrature point with the q-th point of the cell: the permuted Gauss rules list their points
             # in the order of the matching element's nodes
             ("rule point order vs element nodes", "run_included", dict(modname="c05", fname="run_perm", kwargs=dict(tier=tier), oid="C19.O8", select_oid="C05.O5",
-                                                                      why="shifting quadrature-point values to the points relies on the rule's points being ordered like the element's nodes"))]
+                                                                      why="shifting quadrature-point values to the points relies on the rule's points being ordered like the element's nodes")),
+            # extrapolate() builds a helper region with the region's own element object and the inverted rule; project(average=False) copies
+            # the region onto a disconnected mesh: the copy must carry the basis of the region's own rule
+            ("region arrays after a helper region used the element", "run_included", dict(modname="c06", fname="run_cache", kwargs={}, oid="C19.O9", select_oid="C06.O7",
+                                                                                        why="a projection after an extrapolation on the same region uses region.copy(mesh): its basis arrays must be those of the region's quadrature rule"))]
 
 
 def run_stress(col):
